@@ -105,6 +105,8 @@ where
       #[cfg(rustdds_verif)]
       crate::verif_hooks::sched::yield_point("dr.filled_one");
     }
+    #[cfg(rustdds_verif)]
+    crate::verif_hooks::sched::yield_point("dr.filled");
     Ok(())
   }
 
